@@ -1,0 +1,54 @@
+//go:build verif
+// +build verif
+
+package ws
+
+import (
+	"context"
+	"net"
+
+	"github.com/gobwas/httphead"
+)
+
+// Exported views of handshake internals for the external verification harness.
+// Compiled only with -tags verif; nothing here changes library behaviour.
+
+func VerifHTTPParseRequestLine(line []byte) (method, uri []byte, major, minor int, err error) {
+	r, err := httpParseRequestLine(line)
+	return r.method, r.uri, r.major, r.minor, err
+}
+
+func VerifHTTPParseResponseLine(line []byte) (major, minor, status int, reason []byte, err error) {
+	r, err := httpParseResponseLine(line)
+	return r.major, r.minor, r.status, r.reason, err
+}
+
+func VerifHTTPParseHeaderLine(line []byte) (k, v []byte, ok bool) { return httpParseHeaderLine(line) }
+
+func VerifStrSelectProtocol(h string, check func(string) bool) (string, bool) {
+	return strSelectProtocol(h, check)
+}
+
+func VerifBtsSelectProtocol(h []byte, check func([]byte) bool) (string, bool) {
+	return btsSelectProtocol(h, check)
+}
+
+func VerifBtsSelectExtensions(h []byte, selected []httphead.Option, check func(httphead.Option) bool) ([]httphead.Option, bool) {
+	return btsSelectExtensions(h, selected, check)
+}
+
+func VerifNegotiateExtensions(h []byte, dest []httphead.Option, f func(httphead.Option) (httphead.Option, error)) ([]httphead.Option, error) {
+	return negotiateExtensions(h, dest, f)
+}
+
+func VerifMatchSelectedExtensions(selected []byte, wanted, received []httphead.Option) ([]httphead.Option, error) {
+	return matchSelectedExtensions(selected, wanted, received)
+}
+
+func VerifSetupContextDeadliner(ctx context.Context, conn net.Conn) func(*error) {
+	return setupContextDeadliner(ctx, conn)
+}
+
+func VerifStatusText(code int) string { return statusText(code) }
+func VerifErrorText(err error) string { return errorText(err) }
+func VerifNonZero(a, b int) int       { return nonZero(a, b) }
